@@ -105,7 +105,34 @@ impl J {
 struct Cx<'tcx> {
     tcx: TyCtxt<'tcx>,
     types: BTreeMap<String, J>,
+    // non-local library functions (small core combinators) whose MIR is wanted so that the analysis can see through them
+    extern_wanted: Vec<DefId>,
+    extern_seen: std::collections::BTreeSet<String>,
 }
+
+const EXTERN_PREFIXES: &[&str] = &[
+    "core::option::Option::<T>::",
+    "core::result::Result::<T, E>::",
+    "core::bool::<impl bool>::",
+    "core::mem::replace",
+    "core::mem::swap",
+    "core::mem::take",
+    "core::cmp::min",
+    "core::cmp::max",
+    "core::cmp::Ord::",
+    "core::cmp::impls::",
+    "core::num::<impl ",
+    "<core::option::Option<T> as core::ops::try_trait::",
+    "<core::result::Result<T, E> as core::ops::try_trait::",
+    "<core::option::Option<T> as core::default::Default>",
+    "core::slice::<impl [T]>::first",
+    "core::slice::<impl [T]>::last",
+    "core::slice::<impl [T]>::is_empty",
+    "core::slice::<impl [T]>::split_first",
+    "core::slice::<impl [T]>::split_last",
+    "core::convert::identity",
+    "core::ops::function::impls::",
+];
 
 impl<'tcx> Cx<'tcx> {
     fn path(&self, did: DefId) -> String {
@@ -242,8 +269,26 @@ impl<'tcx> Cx<'tcx> {
         J::A(vec![J::N(p.local.as_usize() as i128), J::A(proj)])
     }
 
+    fn want_extern(&mut self, did: DefId) {
+        if did.is_local() {
+            return;
+        }
+        let p = self.path(did);
+        if !EXTERN_PREFIXES.iter().any(|q| p.starts_with(q)) {
+            return;
+        }
+        if !matches!(self.tcx.def_kind(did), DefKind::Fn | DefKind::AssocFn | DefKind::Closure) || !self.tcx.is_mir_available(did) {
+            return;
+        }
+        let h = self.hash(did);
+        if self.extern_seen.insert(h) {
+            self.extern_wanted.push(did);
+        }
+    }
+
     fn callee_info(&mut self, owner: DefId, did: DefId, args: ty::GenericArgsRef<'tcx>) -> J {
         let tcx = self.tcx;
+        self.want_extern(did);
         let mut o: Vec<(&'static str, J)> = vec![
             ("path", s(self.path(did))),
             ("krate", s(self.krate(did))),
@@ -274,6 +319,7 @@ impl<'tcx> Cx<'tcx> {
         match res {
             Ok(Ok(Some(inst))) => {
                 let rd = inst.def_id();
+                self.want_extern(rd);
                 let kind = match inst.def {
                     ty::InstanceKind::Item(_) => "item",
                     ty::InstanceKind::Intrinsic(_) => "intrinsic",
@@ -639,7 +685,7 @@ impl rustc_driver::Callbacks for Cb {
 }
 
 fn emit<'tcx>(tcx: TyCtxt<'tcx>, outdir: &str) {
-    let mut cx = Cx { tcx, types: BTreeMap::new() };
+    let mut cx = Cx { tcx, types: BTreeMap::new(), extern_wanted: vec![], extern_seen: Default::default() };
     let crate_name = tcx.crate_name(LOCAL_CRATE).to_string();
     let mut bodies = vec![];
     let mut const_bodies = vec![];
@@ -655,6 +701,19 @@ fn emit<'tcx>(tcx: TyCtxt<'tcx>, outdir: &str) {
                 }
             }
             _ => {}
+        }
+    }
+    // small library combinators reached from this crate (bounded, transitively through the same whitelist)
+    let mut extern_bodies = vec![];
+    let mut rounds = 0;
+    while let Some(did) = cx.extern_wanted.pop() {
+        rounds += 1;
+        if rounds > 400 {
+            break;
+        }
+        let r = std::panic::catch_unwind(std::panic::AssertUnwindSafe(|| cx.body(did)));
+        if let Ok(b) = r {
+            extern_bodies.push(b);
         }
     }
     // items
@@ -779,6 +838,7 @@ fn emit<'tcx>(tcx: TyCtxt<'tcx>, outdir: &str) {
         ("fns", J::A(fns_nobody)),
         ("bodies", J::A(bodies)),
         ("const_bodies", J::A(const_bodies)),
+        ("extern_bodies", J::A(extern_bodies)),
         ("types", J::M(types)),
     ]);
     let mut out = String::new();
